@@ -34,6 +34,7 @@ REWRITE_TABLE = [
     "np.lcm(a,b)          -> proxy: solver-driven concretisation, then numpy",
     "unpack / struct.unpack(fmt, b) -> harness stub for marked fields, else struct.unpack",
     "yaml.safe_load / yaml.dump     -> harness stub at document level when installed, else PyYAML",
+    "pandas Series/DataFrame.shift on object columns fills NaN (as for float64 columns) instead of None",
 ]
 
 NAME_CALLS = {"int", "float", "round", "Fraction", "unpack"}
@@ -283,6 +284,23 @@ IMPL = {
 _installed = False
 
 
+def _patch_pandas_object_fill():
+    """Object-dtype columns stand for float64 columns: ``shift`` must fill with NaN (as it does for float64), not None."""
+    from pandas._libs import lib as _lib
+
+    for cls in (pd.Series, pd.DataFrame):
+        orig = cls.shift
+
+        def shift(self, periods=1, freq=None, axis=0, fill_value=_lib.no_default, suffix=None, _orig=orig):
+            if fill_value is _lib.no_default:
+                objcols = self.dtype == object if isinstance(self, pd.Series) else any(t == object for t in self.dtypes)
+                if objcols:
+                    fill_value = np.nan
+            return _orig(self, periods=periods, freq=freq, axis=axis, fill_value=fill_value, suffix=suffix)
+
+        cls.shift = shift
+
+
 def install():
     """Must run before the first ``import reamber``."""
     global _installed
@@ -294,6 +312,7 @@ def install():
     for k, v in IMPL.items():
         setattr(builtins, "__sym_%s__" % k, v)
     sys.meta_path.insert(0, _Finder())
+    _patch_pandas_object_fill()
     _installed = True
 
 
